@@ -26,7 +26,9 @@ def install_hook():
   user = re.compile(r"^(?:foo\.)?C(\d+)$")
 
   def nm(c):
-    return getattr(c, "full_name", None) or getattr(c, "name", "?")
+    n = getattr(c, "full_name", None) or getattr(c, "name", "?")
+    # a ParameterizedClass (A[T], Generic[T]) carries the name of its base_cls: mark it (c10_attr.gname_to_ref)
+    return n + "[p]" if isinstance(c, _classes.ParameterizedClass) else n
 
   def wrapped(self):
     m = user.match(nm(self))
